@@ -13,9 +13,9 @@ pub struct Board {
     pub en_passant_target: Option<Square>,
 
     #[allow(dead_code)]
-    pub halfmove_clock: u8,
+    pub halfmove_clock: u16,
     #[allow(dead_code)]
-    pub fullmove_counter: u8,
+    pub fullmove_counter: u16,
 }
 
 impl Board {
